@@ -14,7 +14,7 @@ ap.add_argument('--out', default='')
 ap.add_argument('--limit', type=int, default=0)
 ap.add_argument('--recheck', default='', help='a previous --out file: re-run the checks on its uncaught rows only (tests are not re-run)')
 a = ap.parse_args()
-env = dict(os.environ, GOFLAGS='-mod=mod', GOPROXY='off', GOSUMDB='off', GOTOOLCHAIN='local')
+env = dict(os.environ, GOFLAGS='-mod=mod -trimpath', GOPROXY='off', GOSUMDB='off', GOTOOLCHAIN='local')
 env.pop('GOWORK', None)
 muts = [json.loads(l) for l in subprocess.run([os.path.join(here, 'bin', 'mutgen'), repo], capture_output=True, text=True).stdout.splitlines() if l.strip()]
 recheck = False
